@@ -503,9 +503,10 @@ class InputFileGenerator(object):
         # Sometimes an array is too large for the example in the template
         # This is resolved by adding more fields at the end
         if sub._counter < len(value):
+            ending = newline[len(newline.rstrip('\r\n')):]
             for val in value[sub._counter:]:
                 newline = newline.rstrip() + sep + str(val)
-            self._data[j] = newline
+            self._data[j] = newline + ending
 
         # Sometimes an array is too small for the template
         # This is resolved by removing fields
